@@ -22,7 +22,7 @@ func init() {
 			"replaced (the per-entry store is guarded only by that entry's changed flag) and every member of a changed set is rebuilt; R5.5 the batch authorizer loop obeys the decision table " +
 			"(R2.1, R2.2, R2.3 and R2.6 of C02 applied to the batch loop here, under those names); R5.6 the four request parts are converted from the same-named environment parts, the substitution map and the compiled policies are attached, and the callback is " +
 			"invoked once with that result and its error returned; R5.7 the recursion consumes one variable per level (re-slice [1:] dominates the recursive call; the empty list authorizes " +
-			"instead of recursing); R5.8 batch.Authorize takes the request in as given (variable items are the entries of request.Variables untouched, env.Entities is the entities argument or an empty store when that is nil, the four request parts go in under their own names). Not decided: exact once-per-element counting, equivalence of staged partial evaluation (C06).",
+			"instead of recursing); R5.8 batch.Authorize takes the request in as given (variable items are the entries of request.Variables untouched, env.Entities is the entities argument or an empty store when that is nil, the four request parts go in under their own names). Not decided: exact once-per-element counting, equivalence of staged partial evaluation (C06). R5.9 snapshot persistence: every map write in what doBatch reaches goes to a map made by that function (or to a state member replaced by a fresh map first), so the shallow save/restore of the enumeration state is a real restore.",
 		Run: runC05,
 	})
 }
